@@ -583,6 +583,105 @@ def stage_foreign_runs(ctx: Ctx):
                                           {**rec, 'out_src': out.src, 'diffs': d})
 
 
+def stage_dict_and_try(ctx: Ctx):
+    """deterministic: (a) Dict keys / values re-paired (values permuted under fixed keys, keys permuted, pairs swapped / deleted / duplicated) with keys that differ by more
+    than a primitive and with `**` entries; (b) the number of except handlers / finally statements of a try changed (append / insert / delete / duplicate) while the other
+    statements are untouched: the result equals the edited AST and every untouched statement keeps its original text, comments included"""
+    import fst
+    import itertools
+    import copy as _copy
+    dicts = ['d = {a + b: 1, c * d: 2}\n', 'd = {a: x, **y}\n', 'd = {a.b: 1, c: 2, "k": [3]}\n', 'd = {\n    1: p,  # one\n    2: q,  # two\n    **r,  # rest\n}\n', 'd = {f(a): (lambda: 0), b[0]: {1: 2}, **e, g: h}\n']
+    for src in dicts:
+        n = len(ast.parse(src).body[0].value.keys)
+        perms = list(itertools.permutations(range(n)))[:24]
+        edits_ = [('values', p_) for p_ in perms if p_ != tuple(range(n))] + [('keys', p_) for p_ in perms if p_ != tuple(range(n))] + [('pairs', p_) for p_ in perms if p_ != tuple(range(n))]
+        edits_ += [('delete', (k,)) for k in range(n)] + [('dup', (k,)) for k in range(n)]
+        for what, p_ in edits_:
+            root = fst.FST(src, 'exec')
+            root.mark()
+            d = root.a.body[0].value
+            K, V = list(d.keys), list(d.values)
+            if what == 'values':
+                d.values = [V[k] for k in p_]
+            elif what == 'keys':
+                d.keys = [K[k] for k in p_]
+            elif what == 'pairs':
+                d.keys, d.values = [K[k] for k in p_], [V[k] for k in p_]
+            elif what == 'delete':
+                del d.keys[p_[0]]
+                del d.values[p_[0]]
+            else:
+                d.keys.insert(p_[0], strip_f(K[p_[0]]) if K[p_[0]] is not None else None)
+                d.values.insert(p_[0], strip_f(V[p_[0]]))
+            edited = strip_f(root.a)
+            try:
+                ast.parse(ast.unparse(ast.fix_missing_locations(strip_f(root.a))))
+            except Exception:
+                continue
+            rec = {'src': src, 'edit': what, 'perm': list(p_)}
+            ctx.tick(('dict', src, what, p_), 'reconcile:dict-repair')
+            try:
+                out = root.reconcile()
+            except Exception as e:
+                ctx.violation(f'reconcile-raise|{type(e).__name__}|dict-{what}', 'reconcile() raised on re-paired Dict entries', {**rec, 'error': repr(e)[:200]})
+                continue
+            dd = cmp_ast(out.a, edited, positions=False) or reparse_diffs(out)
+            if dd:
+                ctx.violation(f'reconcile-struct|dict-{what}', 'the reconciled tree is not the edited AST', {**rec, 'out_src': out.src, 'diffs': dd})
+    trys = ['try:\n    a = 1  # body\nexcept E1:  # h1\n    b = 2  # in h1\nexcept E2 as e:\n    c = (3,\n         4)  # multi\nelse:\n    d = 5  # in else\nfinally:\n    # own line\n    f = 6  # in finally\n    g = 7\nz = 0\n',
+            'def w():\n    try:\n        a  # body\n    except* G1:\n        b  # h1\n    except* G2:\n        c  # h2\n    return 1  # after\n']
+    for src in trys:
+        probe = ast.parse(src)
+        tnode = probe.body[0] if isinstance(probe.body[0], (ast.Try, ast.TryStar)) else probe.body[0].body[0]
+        nh, nf = len(tnode.handlers), len(tnode.finalbody)
+        edits_ = [('append_handler', None), ('insert_handler', 0), ('insert_handler', 1)] + [('delete_handler', k) for k in range(nh) if nh > 1] + [('dup_handler', k) for k in range(nh)] + \
+                 [('append_final', None), ('insert_final', 0)] + [('delete_final', k) for k in range(nf) if nf > 1]
+        star = isinstance(tnode, ast.TryStar)
+        for what, k in edits_:
+            root = fst.FST(src, 'exec')
+            root.mark()
+            t = root.a.body[0] if isinstance(root.a.body[0], (ast.Try, ast.TryStar)) else root.a.body[0].body[0]
+            newh = ast.ExceptHandler(type=ast.Name(id='NewE', ctx=ast.Load()), name=None, body=[ast.Pass()])
+            news = ast.Expr(value=ast.Name(id='new_stmt', ctx=ast.Load()))
+            if what == 'append_handler':
+                t.handlers.append(newh)
+            elif what == 'insert_handler':
+                t.handlers.insert(k, newh)
+            elif what == 'delete_handler':
+                del t.handlers[k]
+            elif what == 'dup_handler':
+                t.handlers.insert(k, strip_f(t.handlers[k]))
+            elif what == 'append_final':
+                t.finalbody.append(news)
+            elif what == 'insert_final':
+                t.finalbody.insert(0, news)
+            else:
+                del t.finalbody[k]
+            edited = strip_f(root.a)
+            # untouched statements: original statement objects still in the tree, other than the try itself and its ancestors
+            lines = src.split('\n')
+            keep = []
+            for n_ in ast.walk(root.a):
+                if isinstance(n_, ast.stmt) and getattr(n_, 'f', None) is not None and n_ is not t and not any(c is t for c in ast.walk(n_)):
+                    keep += [l.strip() for l in lines[n_.lineno - 1:n_.end_lineno] if l.strip()]
+            rec = {'src': src, 'edit': what, 'index': k}
+            ctx.tick(('try', src, what, k), 'reconcile:try-count')
+            try:
+                out = root.reconcile()
+            except Exception as e:
+                ctx.violation(f'reconcile-raise|{type(e).__name__}|try-{what}', 'reconcile() raised on a changed number of handlers / finally statements', {**rec, 'error': repr(e)[:200]})
+                continue
+            dd = cmp_ast(out.a, edited, positions=False) or reparse_diffs(out)
+            if dd:
+                ctx.violation(f'reconcile-struct|try-{what}', 'the reconciled tree is not the edited AST', {**rec, 'out_src': out.src, 'diffs': dd})
+                continue
+            have = collections.Counter(l.strip() for l in out.src.split('\n'))
+            lost = [l for l in keep if not have[l]]
+            if lost:
+                ctx.violation(f'reconcile-untouched-text|try-{what}', 'statements that were not touched lost their original text (layout / comments) in the reconciled source',
+                              {**rec, 'out_src': out.src, 'lost_lines': lost[:6]})
+
+
 # ---- correspondence: number of puts of the real reconciler vs models/Reconcile.v ----------------------------------------
 SKIP_FIELDS = ('ctx', 'str', 'lineno', 'col_offset', 'end_lineno', 'end_col_offset', 'kind', 'type_comment')
 
@@ -735,6 +834,7 @@ def run(ctx: Ctx):
     run_guarded(ctx, stage_prims)
     run_guarded(ctx, stage_prim_fields)
     run_guarded(ctx, stage_foreign_runs)
+    run_guarded(ctx, stage_dict_and_try)
     run_guarded(ctx, stage_corr, progs)
 
 
